@@ -232,6 +232,7 @@ var props = map[string]propDef{
 	"C07": {"C07", "proxy", 40, 600, "W-proxy", 0, 4},
 	"C08": {"C08", "proxy", 40, 600, "W-proxy", 0, 0},
 	"C14": {"C14", "proxy", 40, 600, "W-proxy", 0, 0},
+	"C17": {"C17", "proxy", 40, 600, "W-proxy", 0, 0},
 	"C05": {"C05", "lb", 30, 600, "W-lb", 200, 0},
 	"C06": {"C06", "lb", 30, 600, "W-lb", 50, 0},
 	"C16": {"C16", "health", 30, 600, "W-health", 100, 0},
